@@ -66,7 +66,7 @@ pub open spec fn token_hdr(token: Seq<char>) -> Seq<char> {
 }
 pub open spec fn token_parts_ok(token: Seq<char>, header: Seq<char>, f: Seq<u8>) -> bool {
     let parts = split_spec(token, '.');
-    &&& (parts.len() == 3 || (parts.len() == 4 && utf8(parts[3]) == utf8(b64(f))))
+    &&& ((parts.len() == 3 && f.len() == 0) || (parts.len() == 4 && utf8(parts[3]) == utf8(b64(f))))
     &&& token_hdr(token) == header
     &&& crate::base64::b64_decode(utf8(parts[2])) is Some
 }
